@@ -130,6 +130,9 @@ M2_STATS = Counter()
 FIELD_NAMES = ["stem", "flags", "webentity", "left", "right", "child", "parent", "outlinks", "inlinks"]
 
 
+SHADOW = {}  # id(node object) -> register values as last read / written through that object
+
+
 def install_m2():
     cls = getattr(TN, "LRUTrieNode", None)
     if cls is None or not (hasattr(cls, "read") and hasattr(cls, "write")):
@@ -144,10 +147,13 @@ def install_m2():
     def read(self, *a, **k):
         # signature-agnostic: the wrapped method may grow parameters
         r = _read(self, *a, **k)
+        # the shadow copy lives OUTSIDE the node (a node class with __slots__ accepts no new attribute)
         try:
-            self._vt_shadow = list(self.data) if self.exists else None
+            if len(SHADOW) > 200000:
+                SHADOW.clear()
+            SHADOW[id(self)] = list(self.data) if self.exists else None
         except Exception:
-            self._vt_shadow = None
+            SHADOW.pop(id(self), None)
         return r
 
     def write(self, *a, **k):
@@ -156,7 +162,7 @@ def install_m2():
             if self.exists and self.block is not None:
                 M2_STATS["inplace"] += 1
                 raw = self.storage.read(self.block)
-                sh = getattr(self, "_vt_shadow", None)
+                sh = SHADOW.get(id(self))
                 if raw is not None and sh is not None and len(raw) == struct.calcsize(fmt):
                     disk = list(struct.unpack(fmt, bytes(raw)))
                     for f in range(len(disk)):
@@ -172,14 +178,18 @@ def install_m2():
             M2_STATS["monitor_errors"] += 1
         r = _write(self, *a, **k)
         try:
-            self._vt_shadow = list(self.data)
+            SHADOW[id(self)] = list(self.data)
         except Exception:
-            self._vt_shadow = None
+            SHADOW.pop(id(self), None)
         return r
 
-    cls.read = read
-    cls.write = write
-    cls._vt_m2 = True
+    try:
+        cls.read = read
+        cls.write = write
+        cls._vt_m2 = True
+    except (AttributeError, TypeError) as e:
+        STATUS["M2"] = "absent: cannot wrap LRUTrieNode (%s)" % type(e).__name__
+        return
     STATUS["M2"] = "on"
 
 
